@@ -290,7 +290,41 @@ def case_step_float(name, opts, dtype, variant, step, fixed):
                 fails.append(Fail(f"{tag}:step-value", "time-step kernel output differs from field + step * flux(field) for a step passed as " + variant,
                                   argument=arg, cell=idx, got=float(got[idx]), want=float(exp[idx]), tol=tol, step=step, dtype=dtype, call=rep, fixed_grid_size=fixed))
                 break
-    return CaseResult(fails=fails, states=states, transitions=2, traces=2, outcome=f"{tag}:{dtype}:{variant}:{step}")
+    # ---- history with TRANSIENT view objects: one kernel object applied in turn to different fields that are
+    # handed in as temporaries (interior view of a padded array / .view(), created in the call expression and
+    # gone after it) while scratch and velocity arrays persist, as in a simulator: each call must advance exactly
+    # the field it is given, once
+    primary = next(arg for arg, _k, role in sp["arrays"] if role == "inout")
+    pkind = next(k for arg, k, _r in sp["arrays"] if arg == primary)
+    sl_s = tuple(slice(1, -1) for _ in shape)
+    pshape = tuple(n + 2 for n in shape) if pkind == "s" else (d, *[n + 2 for n in shape])
+    owners = [(simcfg._generic(pshape, 5 + 4 * q) * (1.0 - 0.6 * q)).astype(real_t) for q in range(3)]
+    shared = {}
+    for k, (arg, kind, role) in enumerate(sp["arrays"]):
+        if arg != primary:
+            shp = shape if kind == "s" else (d, *shape)
+            shared[arg] = np.full(shp, np.nan, dtype=real_t) if role == "out" else simcfg._generic(shp, 3 * k + 2).astype(real_t)
+
+    def interior(arr):
+        return arr[sl_s] if arr.ndim == d else arr[(slice(None), *sl_s)]
+
+    pre = [interior(o).astype(np.float64).copy() for o in owners]
+    shared_pre = {a_: v.astype(np.float64).copy() for a_, v in shared.items()}
+    for q in (0, 1, 2):  # back-to-back calls, nothing allocated in between
+        fn(**{primary: interior(owners[q])}, **shared, **s_pass)
+    for q in (0, 1, 2):
+        A = dict(shared_pre)
+        A[primary] = pre[q]
+        exp, mask = sp["ref"](A, s_mean, aux)[primary]
+        mag = 1.0 + max(float(np.abs(A[a_]).max()) for a_, _k, r_ in sp["arrays"] if r_ != "out") ** 2
+        tol = 64 * eps * mag * (1 + abs(step)) ** 3
+        got = interior(owners[q]).astype(np.float64)
+        states += 1
+        if not np.all(np.abs(got - exp) <= tol):
+            fails.append(Fail(f"{tag}:transient-view-history", "one kernel object applied in turn to three fields passed as temporary views: a field was not advanced by exactly field + step * flux(field)",
+                              field_index=q, unchanged=bool(np.array_equal(got, pre[q])), step=step, dtype=dtype))
+            break
+    return CaseResult(fails=fails, states=states, transitions=6, traces=6, outcome=f"{tag}:{dtype}:{variant}:{step}")
 
 
 CASES = {"ssprk3": case_ssprk3, "euler_exact": case_euler_exact, "step_float": case_step_float}
